@@ -214,7 +214,7 @@ pub fn run(r: &Report) {
     // ---- exact rendering of boundary leaf values (each integer / float / simple / string token has its own arm)
     {
         let sub = "leaf-values";
-        r.space(sub, true, "every integer of the 64-bit boundary lattice (both signs, every admissible head width), all 65536 half items, boundary single / double patterns, every simple value, byte strings over all byte values and lengths 0,1,2,23,24,256, text with quotes / backslashes / control / multi-byte characters, tags over the lattice - each alone, inside [x, x], {x: x} and [_ x], under `{}` and 5 caller format specs (sign, precision, width, zero fill: the notation must not change)", 1);
+        r.space(sub, true, "every integer of the 64-bit boundary lattice (both signs, every admissible head width), all 65536 half items, boundary single / double patterns, every simple value, byte strings over all byte values and lengths 0 .. 65537 (15 lengths around 24, 256, 512, 65536), chains of 127 .. 300 nested tags / arrays / maps and chunked strings of as many chunks, text with quotes / backslashes / control / multi-byte characters, tags over the lattice - each alone, inside [x, x], {x: x} and [_ x], under `{}` and 5 caller format specs (sign, precision, width, zero fill: the notation must not change)", 1);
         let mut leaves: Vec<Item> = Vec::new();
         for v in lattice_int() {
             let it = Item::int(v);
@@ -249,7 +249,7 @@ pub fn run(r: &Report) {
             leaves.push(Item::Simple(x));
         }
         leaves.extend([FALSE, TRUE, NULL, UNDEFINED]);
-        for n in [0usize, 1, 2, 23, 24, 256] {
+        for n in [0usize, 1, 2, 23, 24, 255, 256, 257, 511, 512, 513, 1000, 65535, 65536, 65537] {
             leaves.push(Item::bytes(&(0..n).map(|i| (i * 37 + 0xf0) as u8).collect::<Vec<u8>>()));
             leaves.push(Item::text(&"\u{e9}x".repeat(n)));
         }
@@ -261,6 +261,20 @@ pub fn run(r: &Report) {
             if v >= 0 {
                 leaves.push(Item::tag(v as u64, Item::uint(0)));
             }
+        }
+        // chains of directly nested tags / arrays / maps, chunked strings with many chunks: beyond what an 8-bit counter holds
+        for depth in [127usize, 128, 129, 255, 256, 257, 300] {
+            let mut t = Item::uint(5);
+            let mut a = Item::uint(5);
+            let mut m = Item::uint(5);
+            for k in 0..depth {
+                t = Item::tag(6 + (k % 2) as u64, t);
+                a = if k % 2 == 0 { Item::array(vec![a]) } else { Item::Array(vec![a], Len::Indef) };
+                m = if k % 2 == 0 { Item::Map(vec![(Item::uint(0), m)], Len::Indef) } else { Item::map(vec![(Item::uint(1), m)]) };
+            }
+            leaves.extend([t, a, m]);
+            leaves.push(Item::Bytes(vec![7; depth], StrForm::Indef(vec![(1, W::Imm); depth])));
+            leaves.push(Item::Text(vec![b'q'; depth], StrForm::Indef(vec![(1, W::Imm); depth])));
         }
         let shards = 256usize;
         mcx::par::run_shards(
